@@ -17,21 +17,22 @@ from .. import explore as X
 
 IMPORT_LIBRARY = False   # the worker must stay pristine; explore.pristine_import() imports the library
 
-RULE = ('cases are histories of first-touch events on a fresh process (208 events: attribute read / hasattr / '
+RULE = ('cases are histories of first-touch events on a fresh process (217 events: attribute read / hasattr / '
         'getattr-with-default of each of the 12 lazy attribute names through element, isotope, ion, isotope ion and '
-        'an atom without data in the group; 6 calculator calls; 9 submodule imports; init(elements) and '
+        'an atom without data in the group, and of nuclear_spin through isotope, isotope ion and an isotope without '
+        'neutron data; 6 calculator calls; 9 submodule imports; init(elements) and '
         'init(elements, reload=True) of every loader, init_spectral_lines). Walk: breadth-first over abstract loader '
         'states (class-dict kind of every lazy attribute on Element/Isotope/Ion + set(table.properties)), every event '
         'applied to every state; thorough adds a walk over a finer abstraction (multiplicity of each name in '
-        'table.properties, instance dictionaries of ten representative atoms) with 67 representative events, all 3 600 '
-        'ordered pairs of 60 representative events and 5 000 random histories of length <= 30 over 352 events, each in a '
+        'table.properties, instance dictionaries of ten representative atoms) with 69 representative events, all 3 844 '
+        'ordered pairs of 62 representative events and 5 000 random histories of length <= 30 over 365 events, each in a '
         'fresh interpreter. distinct = distinct abstract loader states reached + distinct (history, probe) pairs '
         'replayed in fresh interpreters; each is non-trivial because each compares a served value or the whole '
         '13 000-entry digest with the canonical order')
 TECHNIQUE = ('runtime monitoring: fork-tree exploration of first-touch histories to closure of the abstract loader state, '
              'metamorphic oracle (value of every event and digest of every served value must equal the canonical order), '
              'fresh-interpreter replay of violating and random histories, sys.monitoring trace of which route fired each loader')
-LEVEL_TEXT = ('Every event of a 208-event alphabet is applied to every reachable abstract loader state of the public table '
+LEVEL_TEXT = ('Every event of a 217-event alphabet is applied to every reachable abstract loader state of the public table '
               '(closure reached by a breadth-first fork walk from a pristine interpreter); each event value and a digest of '
               'about 13 000 lazily served values per state are compared with the canonical order; violating histories and '
               'random histories are re-executed in fresh interpreters. Closure is relative to the abstraction; the claim is '
@@ -54,7 +55,9 @@ REPLAY_PER_SIGNATURE = 2     # ... beyond it: this many per distinct symptom (at
 MAX_DIGEST_REPLAYS = 96      # ... plus the digest of every violating state (at most this many, shortest first)
 ALT_DIGESTS = {'quick': 48, 'thorough': 400}
 
+MAX_STEP_REPORTS = 4         # non-canonical step values of one history reported as cases of their own
 KEY_D5 = 'c09.spectral-lines-units-lost'
+KEY_SPIN = 'c09.nuclear-spin-not-lazy'
 UNIT_ATTRS = ('K_alpha_units', 'K_beta1_units')
 
 _state = {}
@@ -103,12 +106,11 @@ def _fresh_judge(case):
     r = X.fresh_run(h, probe=probe)
     if 'error' in r:
         return {'error': r['error']}
-    out = {'steps': len(h), 'bad_step': None}
+    out = {'steps': len(h), 'bad_steps': [], 'neutron_pending': X.group_pending(r['state'], 'neutron')}
     for i, v in enumerate(r['values']):
         want = _canon_value(h[i])
         if v != want:
-            out['bad_step'] = [i, X._short(v, 600), X._short(want, 600)]
-            break
+            out['bad_steps'].append([i, X._short(v, 600), X._short(want, 600)])
     if probe == 'digest':
         out['ndiff'], out['entries'], out['diff_attrs'] = X.diff_digest(r['digest'], _state['canon_digest'])
         out['entries_compared'] = len(_state['canon_digest'])
@@ -128,10 +130,13 @@ def _emission_first_touch_is_explicit_init(history, probe):
     return False
 
 
+def _is_spin_probe(probe):
+    p = str(probe).split(':')
+    return len(p) == 3 and p[0] in ('read', 'hasattr', 'getattr_d') and p[1] == 'nuclear_spin'
+
+
 def _symptom(res):
     """Hashable signature of what differs (for shrinking: the same symptom must persist)."""
-    if res.get('bad_step'):
-        return ('step',)
     if 'ndiff' in res:
         return ('digest', tuple(res['diff_attrs'])) if res['ndiff'] else None
     return None if res.get('probe_ok') else ('probe', json.dumps(res.get('observed'))[:200])
@@ -146,7 +151,7 @@ def _shrink(ctx, case, symptom, budget=24):
         budget -= 1
         ctx.count('shrink_trials')
         res = _fresh_judge(trial)
-        if 'error' not in res and not res.get('bad_step') and _symptom(res) == symptom:
+        if 'error' not in res and _symptom(res) == symptom:
             h = trial['history']
         i -= 1
     return {'history': h, 'probe': case['probe']}
@@ -164,17 +169,18 @@ def _judge(ctx, case, origin, res=None, shrink=False):
     ctx.count('fresh_replays')
     ctx.count('fresh_replays.' + origin)
     ctx.distinct_case(('history', tuple(h), probe))
-    if res.get('bad_step'):
-        # an event inside the history already returned a non-canonical value: the failing case is the prefix
-        i = res['bad_step'][0]
-        ctx.evaluated(i + 1, 'event-value-fresh')
-        return _judge(ctx, {'history': h[:i], 'probe': h[i]}, origin, shrink=shrink)
+    reported = False
+    for i, _, _ in res.get('bad_steps', [])[:MAX_STEP_REPORTS]:
+        # an event inside the history returned a non-canonical value: the failing case is that prefix
+        # (re-executed on its own); the rest of the history is still judged, so that a known finding
+        # in one step cannot mask anything that follows it
+        reported |= _judge(ctx, {'history': h[:i], 'probe': h[i]}, origin, shrink=shrink)
     ctx.evaluated(len(h) + 1, 'event-value-fresh' if probe != 'digest' else 'digest-fresh')
     if probe == 'digest':
         ctx.count('digest_entries_compared', res['entries_compared'])
     sym = _symptom(res)
     if sym is None:
-        return False
+        return reported
     if shrink and len(h) > 2:
         small = _shrink(ctx, case, sym)
         if small['history'] != h:
@@ -194,15 +200,23 @@ def _judge(ctx, case, origin, res=None, shrink=False):
         detail.update(observed=res['observed'], canonical=res['canonical'])
         msg = ('after history %s the event %s returns %s; the canonical order serves %s'
                % (h, probe, json.dumps(res['observed'])[:200], json.dumps(res['canonical'])[:200]))
+    if _is_spin_probe(probe):
+        # features for the classifier of 'c09.nuclear-spin-not-lazy': was the neutron group still pending when
+        # the probe ran, and does the same case pass once the neutron group is loaded first (sibling)?
+        detail['neutron_pending_before_probe'] = bool(res.get('neutron_pending'))
+        sres = _fresh_judge({'history': h + ['read:neutron:el'], 'probe': probe})
+        ctx.count('sibling_runs')
+        detail['sibling_clean'] = ('error' not in sres and _symptom(sres) is None
+                                   and not [b for b in sres['bad_steps'] if b[0] >= len(h)])
     # sibling for the classifier: the same case without the explicit init_spectral_lines calls
-    if detail['explicit_emission_init_first']:
+    elif detail['explicit_emission_init_first']:
         sib = {'history': [e for e in h if e != 'init:emission'], 'probe': probe}
         key = json.dumps(sib)
         cache = _state.setdefault('siblings', {})
         if key not in cache:
             sres = _fresh_judge(sib)
             ctx.count('sibling_runs')
-            cache[key] = ('error' not in sres and not sres.get('bad_step') and _symptom(sres) is None)
+            cache[key] = ('error' not in sres and not sres.get('bad_steps') and _symptom(sres) is None)
         detail['sibling_clean'] = cache[key]
     ctx.violation(msg, check='history', case={'history': h, 'probe': probe}, **detail)
     return True
@@ -415,9 +429,22 @@ def classify(rec):
         return None
     d = rec.get('detail') or {}
     case = rec.get('case') or {}
+    probe = case.get('probe')
+    if _is_spin_probe(probe):
+        # nuclear_spin is set by nsf.init but not registered with delayed_load.  Narrow: an isotope /
+        # isotope-ion read that reports the attribute ABSENT (AttributeError, hasattr False, getattr
+        # default) while the neutron group was still pending, and the same read is canonical once the
+        # neutron group was loaded.  A wrong value, or a difference after the load, stays a violation.
+        obs = d.get('observed')
+        absent = (obs is False or obs == 'DEFAULT' or
+                  (isinstance(obs, list) and len(obs) == 3 and obs[0] == 'EXC' and obs[1] == 'AttributeError'
+                   and 'nuclear_spin' in str(obs[2])))
+        if (absent and d.get('neutron_pending_before_probe') is True and d.get('sibling_clean') is True
+                and str(probe).split(':')[2] != 'nodata'):
+            return KEY_SPIN
+        return None
     if not d.get('explicit_emission_init_first') or d.get('sibling_clean') is not True:
         return None
-    probe = case.get('probe')
     if probe == 'digest':
         attrs = d.get('diff_attrs') or []       # attribute names over ALL differing digest entries
         if attrs and set(attrs) <= set(UNIT_ATTRS):
